@@ -1,15 +1,19 @@
 H("c15_baggage_ops", "C15", "seq", ["harness/c15_baggage_ops.cc"], sdk=[], cxxflags=["-fno-access-control"],
   what="real Baggage: every Set/Delete history up to the depth bound over keys/values of the printable classes (alnum, space, '=', ',', '%', '+', ';', unreserved, "
-       "empty value, ';metadata') from start states with 0, 2 and 179 entries against an ordered-list model; after every operation receiver unchanged, GetValue of "
-       "every key, and extract(inject(b)) through the real BaggagePropagator with a map carrier; the header is also decoded by an independent reference decoder",
+       "empty value, ';metadata') from start states with 0, 2 and 179 entries, and at depth 1 every printable byte 0x20..0x7e as a one-byte key and value plus all "
+       "punctuation in one string, against an ordered-list model; after every operation receiver unchanged, GetValue of every key, GetAllEntries with a callback that "
+       "stops at call 0 / 1 / never, and extract(inject(b)) through the real BaggagePropagator with a map carrier (beyond 180 entries: the first 180 come back); the "
+       "header is also decoded by an independent reference decoder",
   design_ref="5/C15")
 H("c15_extract", "C15", "seq", ["harness/c15_extract.cc"], sdk=[],
   what="real BaggagePropagator::Extract on deviation-bounded headers (single / double point mutations over the byte classes the parser distinguishes, every kind of "
-       "percent escape at every member position, 179..360 members, 4095..4098-byte members, 8191..8194-byte headers) in exact-size heap blocks under ASan against an "
-       "independent three-valued reference decoder (soundness on every input, completeness on members in the encoder's alphabet); nothing valid => caller's context",
+       "percent escape at every member position, 179..360 members incl. invalid members inside / at the edge of the first 180, 4095..4098-byte members, 8191..8194-byte "
+       "headers) in exact-size heap blocks under ASan against an independent three-valued reference decoder (soundness on every input, completeness on members in the "
+       "encoder's alphabet - beyond 180 members for those among the first 180); nothing valid => caller's context",
   design_ref="5/C15")
 H("c15_composite", "C15", "seq", ["harness/c15_composite.cc"], sdk=[],
   what="real CompositePropagator over every ordered subset of {W3C, B3 single, B3 multi, Jaeger, Baggage} up to the size bound: Inject compared with the union of the "
        "individual injections, Extract compared with folding the individual Extracts in order over the same carrier and context (3^5 carriers of absent/valid/invalid "
-       "headers with conflicting ids), including the order of carrier accesses",
+       "headers with conflicting ids), including the order of carrier accesses; Fields() with a callback returning false at every call position against the "
+       "concatenation of the parts' fields and the documented return value, each part's fields against the keys its Inject writes",
   design_ref="5/C15")
